@@ -1,6 +1,6 @@
 """C16 — DAG traversal and queries agree with graph-theoretic definitions."""
 from __future__ import annotations
-import itertools, random
+import itertools, random, zlib
 import core
 from runner import Case
 from props import _dag_util as U
@@ -278,7 +278,20 @@ def oracle(case):
             msgs.append(f"go_to {s}->{t} returned {got} although {t} is not reachable")
         elif sorted(got) != sorted(want):
             msgs.append(f"go_to {s}->{t}: {sorted(got)} != all directed paths {sorted(want)}")
+    if not msgs and any(g is None for g in r["go"]) and zlib.crc32(case.line.encode()) % 4 == 0:
+        # "refuses when there is none" is not one of the optional type/loop checks: the same queries in an interpreter
+        # started with BIGTREE_CONF_ASSERTIONS="" must give the same answers and the same refusals
+        from props import _twoproc
+        off = _twoproc.call("off", "props.C16:worker_impl", d)
+        here = impl(case)
+        if off != here:
+            msgs.append(f"with BIGTREE_CONF_ASSERTIONS switched off the queries answer differently: {off[-160:]} vs {here[-160:]}")
     return msgs
+
+
+def worker_impl(d):
+    """executed in a worker interpreter (props/_twoproc.py): the outcome line of one case"""
+    return impl(Case("", d, ()))
 
 
 # ---------------------------------------------------------------- shrinking
